@@ -5770,7 +5770,10 @@ class State:
 
             assert self.statuses[i]
 
-            self.hand_killing_statuses[i] = not self.can_win_now(i)
+            self.hand_killing_statuses[i] = (
+                sum(self.statuses) > 1
+                and not self.can_win_now(i)
+            )
 
         self._update_hand_killing()
 
